@@ -56,3 +56,69 @@ func c06UfsDirScenarios(tier string) []Scenario {
 	}
 	return out
 }
+
+// msize renegotiated in the middle of a session, after a burst of pipelined
+// requests has populated the pool of reply buffers, followed by large reads and writes
+func c06RenegotiateScenarios(tier string) []Scenario {
+	var out []Scenario
+	for _, be := range []string{"ufs", "script"} {
+		for _, dotu := range []bool{false, true} {
+			be, dotu := be, dotu
+			out = append(out, Scenario{Name: fmt.Sprintf("renegotiate backend=%s dotu=%v", be, dotu), Run: func(rc *RunCtx) *Result {
+				res := &Result{Exhaustive: true}
+				base, root := "", ""
+				if be == "ufs" {
+					base, root = scratchDir("c06r")
+					defer os.RemoveAll(base)
+					makeStdTree(root)
+				}
+				seen := map[string]bool{}
+				for _, ms1 := range []uint32{64, 256, 1024} {
+					for _, burst := range []int{0, 4, 24, 70} {
+						for _, ms2 := range []uint32{ms1 / 2, ms1, 4 * ms1, 8216} {
+							if ms2 < 48 || rc.Expired() {
+								continue
+							}
+							var hostile [][]byte
+							var b []byte
+							for i := 0; i < burst; i++ {
+								b = append(b, wire.Encode(&wire.Msg{Type: wire.Tclunk, Tag: uint16(100 + i), Fid: uint32(500 + i)}, dotu)...)
+							}
+							if len(b) > 0 {
+								hostile = append(hostile, b)
+							}
+							ver := "9P2000"
+							if dotu {
+								ver = "9P2000.u"
+							}
+							hostile = append(hostile, wire.Encode(&wire.Msg{Type: wire.Tversion, Tag: wire.NOTAG, Msize: ms2, Version: ver}, false))
+							for _, cnt := range []uint32{1, ms1 - 24, ms1, ms2 - 24, 4096} {
+								for _, fid := range []uint32{1, 0} {
+									m := &wire.Msg{Type: wire.Tread, Tag: 60, Fid: fid, Offset: 0, Count: cnt}
+									if uint32(len(wire.Encode(m, dotu))) <= ms2 {
+										hostile = append(hostile, wire.Encode(m, dotu))
+									}
+								}
+							}
+							hostile = append(hostile, wire.Encode(&wire.Msg{Type: wire.Tstat, Tag: 61, Fid: 0}, dotu))
+							c := c06Cfg{Backend: be, Msize: 8216, Dotu: dotu}
+							setup := []mevent{{Op: "attach", Fid: 0, Afid: wire.NOFID, Uid: 0, Uname: "root"}, {Op: "walk", Fid: 0, Newfid: 1, Names: []string{"d"}}, {Op: "open", Fid: 1, Mode: 0}}
+							// the session first negotiates ms1: c06Run negotiates c.Msize, so send Tversion(ms1) as the first hostile frame
+							first := wire.Encode(&wire.Msg{Type: wire.Tversion, Tag: wire.NOTAG, Msize: ms1, Version: ver}, false)
+							bad, sig := c06Run(c, root, setup, append([][]byte{first}, hostile...))
+							res.Evals++
+							res.Nontrivial++
+							if bad != "" && !seen[sig] {
+								seen[sig] = true
+								res.Findings = append(res.Findings, Finding{Sig: sig, Msg: fmt.Sprintf("%s\nsession: attach, open a directory, Tversion(msize %d), %d pipelined requests, Tversion(msize %d), reads with counts 1, %d, %d, %d, 4096", bad, ms1, burst, ms2, ms1-24, ms1, ms2-24)})
+							}
+						}
+					}
+				}
+				res.Samples = append(res.Samples, "Tversion(ms1) ; burst of 0/4/24/70 pipelined requests ; Tversion(ms2 in ms1/2, ms1, 4*ms1, 8216) ; Treads with counts around both limits on a directory and on the root ; liveness probes")
+				return res
+			}})
+		}
+	}
+	return out
+}
